@@ -278,8 +278,23 @@ func (c *etcExpCompiler) CompileTailExp(e ast.TailExpNode) {
 // Helper functions
 //
 
+// Chains of binary operators, calls or index operations are parsed iteratively
+// into trees that can be very deep, but are compiled recursively.  This is the
+// maximum depth accepted.  It does not restrict what can be compiled: each level
+// emits at least one instruction or is a nested syntax level (there are at
+// most 200 of those), and a function has fewer than 2^15 instructions.
+const maxExpDepth = 1 << 16
+
 // compileExp compiles the given expression into a register and returns it.
 func (c *compiler) compileExp(e ast.ExpNode, dst ir.Register) ir.Register {
+	*c.expDepth++
+	defer func() { *c.expDepth-- }()
+	if *c.expDepth > maxExpDepth {
+		panic(Error{
+			Where:   e,
+			Message: "expression too complex",
+		})
+	}
 	ec := expCompiler{
 		compiler: c,
 		dst:      dst,
